@@ -156,7 +156,7 @@ def layout_attributes(c):
 # ------------------------------------------------------------------------------------ bounded part
 
 T = lambda s, l=None: CaptionNode.create_text(s, layout_info=l)
-VALS = [0, 5, 10, 12.5, 20, 33.33, 50, 80, 70.1, 10.1, 0.1, 0.2, 29.9]
+VALS = [0, 5, 10, 12.5, 20, 33.33, 50, 80, 70.1, 10.1, 0.1, 0.2, 29.9, 60, 75, 85]
 
 
 def rand_layout(rng, need_origin=False):
@@ -194,6 +194,22 @@ def r2(L):
                   if L.padding else None, alignment=L.alignment)
 
 
+def ref_fit(L):
+    """fit-to-screen as C13 states it (written from the statement, not from the code): with an origin, a
+    missing extent spans to the safe-area edges (90% right, 95% bottom) and an extent that would cross an
+    edge is shrunk to end at it - each axis on its own; without an origin nothing changes"""
+    if L is None or not L.origin:
+        return L
+    x, y = L.origin.x.value, L.origin.y.value
+    if L.extent:
+        w, h = L.extent.horizontal.value, L.extent.vertical.value
+        w = 90 - x if x + w > 90 else w
+        h = 95 - y if y + h > 95 else h
+    else:
+        w, h = 90 - x, 95 - y
+    return Layout(origin=L.origin, extent=Stretch(Size(w, PCT), Size(h, PCT)), padding=L.padding, alignment=L.alignment)
+
+
 def bounded_dfxp_roundtrip(ctx, b):
     rng = random.Random(ctx.seed)
     n = 150 if not ctx.thorough else 3000
@@ -229,7 +245,7 @@ def bounded_dfxp_roundtrip(ctx, b):
                 if fit and el is not None:
                     src = el
                     is_lang_level = el is lang_l and lang_l is not None
-                    el = el if is_lang_level else el.fit_to_screen()      # div region: known finding of C13
+                    el = el if is_lang_level else ref_fit(el)      # div region: known finding of C13
                 want = r2(with_defaults(el))
                 if gl != want:
                     return False, {"text": t, "read": repr(gl), "expected": repr(want), "output": out[:1500]}
@@ -262,11 +278,11 @@ def bounded_webvtt(ctx, b):
             bad = [r for r in res if not r[0]]
             return (not bad), (bad[0][1] if bad else None)
 
-        def check_one(L0, cs, ft):
-            out = WebVTTWriter(fit_to_screen=ft).write(cs)
-            line = [l for l in out.split("\n") if "-->" in l][0]
+        def check_one(L0, cs, ft, relativize=True, cue=0):
+            out = WebVTTWriter(fit_to_screen=ft, relativize=relativize).write(cs)
+            line = [l for l in out.split("\n") if "-->" in l][cue]
             settings = line.split(" ", 3)[3] if line.count(" ") >= 3 else ""
-            L = L0.fit_to_screen() if ft else L0          # Layout.fit_to_screen: proved in C13
+            L = ref_fit(L0) if ft else L0
             x, y = Fraction(L.origin.x.value), Fraction(L.origin.y.value)
             p = L.padding
             exp = []
@@ -281,6 +297,21 @@ def bounded_webvtt(ctx, b):
                 exp.append("size:" + ref2(float(wv)) + "%")
             return settings == " ".join(exp), {"settings": settings, "expected": " ".join(exp), "layout": repr(L0), "fit": ft}
         b.guard(("webvtt", i, level), one, sample={"layout": repr(L), "level": level})
+        if i % 4 == 0:
+            # one Layout object shared by several cues (language level, or the same object on every caption),
+            # also with relativize=False: every cue carries the same settings
+            shared = CaptionSet({"en": CaptionList([Caption((q + 1) * 10 ** 6, (q + 2) * 10 ** 6, [T(f"x{q}")],
+                                                            layout_info=L if level != "language" else None) for q in range(3)],
+                                                   layout_info=L if level == "language" else None)})
+
+            def several(L=L, shared=shared):
+                for rel in (True, False):
+                    for q in range(3):
+                        r = check_one(L, shared, False, relativize=rel, cue=q)
+                        if not r[0]:
+                            return False, dict(r[1], cue=q, relativize=rel)
+                return True, None
+            b.guard(("webvtt-shared", i, level), several, sample={"layout": repr(L), "level": level, "cues": 3})
     # nodes of one caption with different layouts -> separate cues with the same times
     la, lb = Layout(origin=Point(Size(10, PCT), Size(10, PCT))), Layout(origin=Point(Size(20, PCT), Size(70, PCT)))
     # (text nodes that all carry a layout; a node without one inherits and is not "a different layout")
